@@ -25,6 +25,7 @@ class Profile:
         self.enums = True
         self.enum_same_name = False   # enum named like its own field set
         self.enum_reuse = False       # `as <name of an enum generated elsewhere>` on a later field (documented reuse)
+        self.generic_convs = False    # conversion types with generic arguments (`Wrapped<u8>`): for checks that do not compile
         self.case_twins = False       # pairs of names that differ only in letter case (`Rcq` declared before `RcQ`)
         self.conversions = True
         self.reset_values = True
@@ -110,7 +111,12 @@ class Gen:
                     n, b, ew, kd = rng.choice(reusable)
                     conv = adef.mk_direct(n, kd == "try" or rng.random() < 0.2)
                 elif k < 0.35:
-                    conv = adef.mk_direct(rng.choice(["crate::convtypes::Ty", "Ty", "super::convtypes::Ty"]))
+                    names = ["crate::convtypes::Ty", "Ty", "super::convtypes::Ty"]
+                    if p.generic_convs:
+                        # the type path is used as written, generic arguments included (seed C16-9: the DSL kept the segment
+                        # identifiers only)
+                        names += ["Wrapped<u8>", "crate::types::Checked<Level>", "::ext::Pair<u8,Option<Level>>"]
+                    conv = adef.mk_direct(rng.choice(names))
                 elif k < 0.5:
                     conv = adef.mk_direct("crate::convtypes::TryTy", True)
                 elif p.enums and w <= 16:
@@ -217,6 +223,12 @@ class Gen:
                                 fields_out=self.fields(so, name, "out") if so and rng.random() < 0.85 else None,
                                 byte_order=self.byte_order(cfg, max(si or 0, so or 0)),
                                 bit_order=rng.choice([None, None, "MSB0"]), repeat=rep)
+            if rng.random() < 0.04:
+                # fields in a direction whose size is left out: the range check rejects them (nothing fits in 0 bits); were
+                # they accepted, the accessor would name a field set that is never emitted (seed C19-9)
+                k = rng.choice(["size_bits_in", "size_bits_out"])
+                if c.get(k) and c.get(k.replace("size_bits", "fields")):
+                    c[k] = None
         self.commands.append(c)
         self.scope_of[name] = self.scope
         return c
